@@ -4,6 +4,28 @@ import json, os
 from lib import vlib
 
 
+CONF_CFG = """CONSTANTS Conns = {1, 2, 3}
+  MaxMsgs = 1000
+  PerMessageGoroutine = FALSE
+  GlobalLock = FALSE
+INIT TInit
+NEXT TNext
+CONSTRAINT HW
+POSTCONDITION Post
+CHECK_DEADLOCK FALSE
+"""
+
+
+def conformance(ctx, scen):
+    """Hook-level conformance: arrivals (test) and serve.msg / serve.ret (verif hook in conn.serve) of every scenario
+    must be a behaviour of spec/SerialImpl.tla (spec/SerialImplTrace.tla). Drift is reported in the evidence only."""
+    if not scen:
+        return dict(status="skipped", scenarios=0)
+    r = vlib.impl_conformance(ctx, "SerialImplTrace", CONF_CFG, scen, [("ev", ""), ("c", 0)], "ser")
+    ctx.log("impl conformance: %d scenarios replayed against SerialImpl (%s TLC states), %s" % (r.get("scenarios", 0), r.get("tlc_states", "?"), r["status"]))
+    return r
+
+
 def run(ctx):
     quick = ctx.tier == "quick"
     r1 = vlib.tlc_check(ctx.scratch, "SerialImpl", "SerialImpl_r1.cfg", workers=4)
@@ -22,7 +44,9 @@ def run(ctx):
     p = vlib.run_harness(ctx.harness, ["serial", "-cases", cpath, "-out", tpath, "-seed", str(ctx.seed), "-repo", vlib.REPO], timeout=int(os.environ.get("VERIF_SERIAL_TIMEOUT", "900")))
     if p.returncode != 0:
         raise vlib.Infra("serial driver failed: " + p.stderr[-2000:])
-    lines = vlib.read_ndjson(tpath)
+    alllines = vlib.read_ndjson(tpath)
+    lines = [l for l in alllines if l["ev"] != "hooklog"]
+    conf = conformance(ctx, [dict(case=l["sc"], events=l.get("hooks") or []) for l in alllines if l["ev"] == "hooklog"])
     bad, st = vlib.tlc_validate(ctx.scratch, "SerialTrace", "SerialTrace.cfg", lines, timeout=1800, reset_key=lambda l: l["ev"] == "reset")
     nsc = sum(1 for l in lines if l["ev"] == "reset")
     ctx.log("R2: %d scenarios; R3: %d events in %d scenarios validated, %d rejected" % (len(cases), len(lines), nsc, len(bad)))
@@ -43,7 +67,7 @@ def run(ctx):
                rule="R1: spec/SerialImpl.tla for 2 connections x 3 messages with one held handler, every interleaving; R2: 1-3 connections (accepted by Server.Serve on an in-memory listener, or diam.NewConn) x 2-3 messages x "
                     "{burst in one segment, one byte at a time, interleaved across connections} x every placement of one held handler; handlers record enter/exit under one lock; while a handler is held every other connection "
                     "must finish within a 5 s positive deadline and the held connection's next handler must not start during a 30 ms grace period. non-trivial = a handler is held or several connections; distinct by scenario Since extended: connections dialled over loopback TCP (diam.Dial), accepted by a server with WriteTimeout shorter than the hold, multi-stream associations; GOMAXPROCS connections whose handlers are stuck in WriteTo plus one more; flavours dwr, regpending, cn (newest-reader-first transport), panicreg.",
-               samples=[l for l in lines[:6]], exhaustive=True, rejected=len(bad), known_finding_hits={k: n for k, (n, _) in v.hits.items()})
+               samples=[l for l in lines[:6]], exhaustive=True, impl_conformance=conf, rejected=len(bad), known_finding_hits={k: n for k, (n, _) in v.hits.items()})
     rc = v.finish()
     vlib.write_evidence("C08", ctx.tier, ctx.seed, cov, ctx.wall(), v.nviol,
                         ["negative observations are one-sided (a grace period can only miss a violation)", "positive deadlines are 5 s"])
